@@ -33,25 +33,55 @@ def is_request(name):
     return name.endswith("Request")
 
 
+DFLT_O = '(@Unexpected obj "not reached"%string)'
+DFLT_B = '(@Unexpected bytes "not reached"%string)'
+SKIP_O = "(Seen (@Raise obj OtherExc))"       # step not performed because an earlier one raised
+SKIP_B = "(Seen (@Raise bytes OtherExc))"
+
+
+def guarded(fn, fallback_term, label):
+    """last resort: an exception escaping a case builder becomes an Unexpected case, not a crash of suites()"""
+    try:
+        return fn()
+    except Exception as e:  # noqa: BLE001
+        txt = "case builder failed: %s: %s" % (type(e).__name__, e)
+        return Case(fallback_term(txt), {"class": label, "unexpected": True, "error": txt[:300]}, kind=str(label), nontrivial=False)
+
+
+def rt_fallback(txt):
+    u = L.unexpected("bytes", txt)
+    return "(true, OIllegal 0, %s, %s, %s, %s, %s)" % (u, u, DFLT_O, DFLT_B, DFLT_O)
+
+
+def hist_fallback(txt):
+    return "(OIllegal 0, %s, %s)" % (lst([]), lst(["HOUnexpected %s" % L.what(txt)]))
+
+
 def rt_case(spec):
+    """never raises: every outcome of the implementation is an observation in the case term"""
     server = is_request(spec[0])
-    o = L.build(spec)
-    term = L.obj_term(o)
+    term, o, err = L.safe_obj_term(lambda: L.build(spec))
+    if err is not None:
+        u = L.unexpected("bytes", "cannot build/dump %s: %s" % (spec[0], err))
+        t = "(%s, OIllegal 0, %s, %s, %s, %s, %s)" % ("true" if server else "false", u, u, DFLT_O, DFLT_B, DFLT_O)
+        return Case(t, {"class": spec[0], "spec": repr(spec[1:])[:3000], "pdu": u, "decoded": "", "pure": False,
+                        "nwords": None, "unexpected": True}, kind=spec[0], nontrivial=False)
     e1, b1, x1 = L.res(lambda: L.pdu_of(o), L.nbytes, "bytes")
     e2, _, _ = L.res(lambda: L.pdu_of(o), L.nbytes, "bytes")
-    d1 = e3 = d2 = None
-    o1 = None
+    d1, e3, d2 = SKIP_O, SKIP_B, SKIP_O
     if x1 is None:
         d1, o1, xd = L.res(lambda: L.helper(server, b1), L.obj_term, "obj")
         if xd is None:
             e3, b3, x3 = L.res(lambda: L.pdu_of(o1), L.nbytes, "bytes")
             if x3 is None:
                 d2, _, _ = L.res(lambda: L.helper(server, b3), L.obj_term, "obj")
-    dflt_o = "(@Raise obj OtherExc)"
-    dflt_b = "(@Raise bytes OtherExc)"
-    t = "(%s, %s, %s, %s, %s, %s, %s)" % ("true" if server else "false", term, e1, e2, d1 or dflt_o, e3 or dflt_b, d2 or dflt_o)
-    desc = {"class": spec[0], "spec": repr(spec[1:])[:3000], "pdu": e1[:300], "decoded": (d1 or "")[:300],
-            "pure": e1 == e2, "nwords": diag_words(o)}
+    t = "(%s, %s, %s, %s, %s, %s, %s)" % ("true" if server else "false", term, e1, e2, d1, e3, d2)
+    try:
+        nw = diag_words(o)
+    except Exception:  # noqa: BLE001
+        nw = None
+    desc = {"class": spec[0], "spec": repr(spec[1:])[:3000], "pdu": e1[:300], "decoded": d1[:300],
+            "pure": e1 == e2, "nwords": nw, "unexpected": "Unexpected" in (e1 + e2 + d1 + e3 + d2)}
     return Case(t, desc, kind=spec[0], nontrivial=x1 is None)
 
 
@@ -73,21 +103,30 @@ def suite_rt(tier):
     specs = []
     for _ in range(1 if tier == "quick" else 8):
         specs += L.class_specs(r, tier, bad=0.03)
-    return Suite("rt", IMPORTS, "chk_rt", [rt_case(s) for s in specs], shard=200)
+    return Suite("rt", IMPORTS, "chk_rt", [guarded(lambda s=s: rt_case(s), rt_fallback, s[0]) for s in specs], shard=200)
 
 
 def hist_case(r, spec, pool):
-    o = L.build(spec)
+    """never raises: see rt_case"""
     name = spec[0]
-    term = L.obj_term(o)
+    term, o, err = L.safe_obj_term(lambda: L.build(spec))
+    if err is not None:
+        t = "(OIllegal 0, %s, %s)" % (lst([]), lst(["HOUnexpected %s" % L.what("cannot build/dump %s: %s" % (name, err))]))
+        return Case(t, {"class": name, "spec": repr(spec[1:])[:2000], "ops": [], "outs": [], "unexpected": True},
+                    kind=name, nontrivial=False)
     N = L.ns()
     ops, outs = [], []
+    bad = False
     n = r.choice([2, 3, 4, 5, 6, 7])
     for i in range(n):
         if r.random() < 0.5 or not pool:
             ops.append("HEnc")
             e, _, x = L.res(o.encode, L.nbytes, "bytes")
-            outs.append("HOEnc %s" % e)
+            if isinstance(x, L.UnexpectedObs):
+                outs.append("HOUnexpected %s" % L.what(e))
+                bad = True
+                break
+            outs.append("HOEnc %s" % e[len("(Seen "):-1])
             if x is not None:
                 break
         else:
@@ -115,12 +154,17 @@ def hist_case(r, spec, pool):
                 f.decode(b)
                 return f
             d, _, x = L.res(dec_used, L.obj_term, "obj")
-            f, _, _ = L.res(dec_new, L.obj_term, "obj")
-            outs.append("HODec %s %s" % (d, f))
+            f, _, xf = L.res(dec_new, L.obj_term, "obj")
+            if isinstance(x, L.UnexpectedObs) or isinstance(xf, L.UnexpectedObs):
+                outs.append("HOUnexpected %s" % L.what(d + " / " + f))
+                bad = True
+                break
+            outs.append("HODec %s %s" % (d[len("(Seen "):-1], f[len("(Seen "):-1]))
             if x is not None:
                 break
     t = "(%s, %s, %s)" % (term, lst(ops), lst(outs))
-    desc = {"class": name, "spec": repr(spec[1:])[:2000], "ops": [x[:200] for x in ops], "outs": [x[:300] for x in outs]}
+    desc = {"class": name, "spec": repr(spec[1:])[:2000], "ops": [x[:200] for x in ops], "outs": [x[:300] for x in outs],
+            "unexpected": bad}
     return Case(t, desc, kind=name, nontrivial=True)
 
 
@@ -143,7 +187,8 @@ def suite_hist(tier):
                 pool.append(b)
         small = [s for s in ss if len(repr(s)) < 1500] or ss
         for _ in range(per):
-            cases.append(hist_case(r, r.choice(small), pool))
+            sp = r.choice(small)
+            cases.append(guarded(lambda: hist_case(r, sp, pool), hist_fallback, name))
     return Suite("hist", IMPORTS, "chk_hist", cases, shard=200)
 
 
@@ -154,7 +199,9 @@ def suites(tier):
 # ----------------------------------------------------------------------------- findings / replay
 
 def classify(suite, desc):
-    c = desc["class"]
+    if desc.get("unexpected"):
+        return None                       # an undumpable outcome is never a known finding
+    c = desc.get("class") or ""
     if suite == "rt" and desc.get("pure"):      # an impure encode is never covered by the asymmetric-pair findings
         if c == "ReadFifoQueueResponse":
             return "F-C02-fifo-response"
@@ -170,6 +217,14 @@ def classify(suite, desc):
 
 
 def replay_finding(f):
+    """True when the witness still fails (a crash while replaying counts as still failing)."""
+    try:
+        return _replay_finding(f)
+    except Exception:  # noqa: BLE001
+        return True
+
+
+def _replay_finding(f):
     N = L.ns()
     w = f["witness"]
     fid = f["id"]
